@@ -172,8 +172,9 @@ class ProgGen(object):
 
     def __init__(self, rng, max_depth=4, max_nodes=40, value_depth=2, msg_styles=None, act_styles=None,
                  exc_pool=None, allow_remote=True, allow_tb=True, allow_typed=True, type_names=None,
-                 allow_cross=True, fail_p=0.3, remote_vias=("same", "thread"), allow_reenter=False, hostile=None):
+                 allow_cross=True, fail_p=0.3, remote_vias=("same", "thread"), allow_reenter=False, hostile=None, defer_p=0.0):
         self.allow_reenter = allow_reenter
+        self.defer_p = defer_p  # share of continue_task hand-offs that are continued only after the program (parent finished)
         self.hostile = hostile  # callable(rng) -> hostile value, used for ~1/3 of the field values
         self.rng = rng
         self.max_depth = max_depth
@@ -263,6 +264,8 @@ class ProgGen(object):
                 "api": rng.choice(["continue_task", "continue_task", "preserve_context"]),
                 "type": rng.choice(self.type_names + ["eliot:remote_task"]),
                 "start": self.fields(), "outcome": "ok", "children": []}
+        if node["api"] == "continue_task" and rng.random() < self.defer_p:
+            node["defer"] = True
         if node["api"] == "preserve_context":
             node["type"] = "eliot:remote_task"
             node["start"] = {}
